@@ -106,6 +106,10 @@ def plan(tier, seed):
     out += L.split_plan("unordered:U4chainx3x2/presentation",
                         [(o, s_) for o in spaces.chain_shapes(4) for s_ in spaces.binary_shapes(3)], u2, 15,
                         {"family": "unordered", "costs": v5[:1], "kinds": ["same", "twice", "after", "inplace"]})
+    # the quick slices that the larger ones above do not subsume
+    keep = ("unordered:U4chainx1x3/costs", "unordered:U3x4x1", "ordered:O3x4x1", "ordered:O4x2x2/child-order",
+            "unordered:U4x2x2/child-order", "ordered:O3x2x2/dict-form", "unordered:U3x2x2/dict-form", "plain:P3x3/dict-form")
+    out = [sh for sh in plan("quick", seed) if sh["slice"] in keep] + out      # cheap ones first
     out.insert(0, {"slice": "determinism", "family": "det", "tier": "thorough"})
     return out
 
